@@ -157,8 +157,14 @@ package tcp
 // RFC 793 page 26: with a closed window only an empty segment at rcvNxt is acceptable; with
 // an open window of w numbers a segment is acceptable iff its first number lies in the window
 // or (for windows that are not both huge) the segment's range and the window share a number.
+// acceptableDef: the exact value computed by receiver.acceptable, with w = rcvAcc - rcvNxt the
+// open window: an empty segment at rcvNxt when w == 0; otherwise the first sequence number in
+// the window, or (seqnum.Overlap) segment and window each start before the other ends.
+//@ define acceptableDef(r, segSeq, segLen) = ite(r.rcvAcc == r.rcvNxt, segLen == 0 && segSeq == r.rcvNxt, segSeq - r.rcvNxt < r.rcvAcc - r.rcvNxt || (int32(r.rcvNxt - (segSeq + seqnum.Value(segLen))) < 0 && int32(segSeq - r.rcvAcc) < 0))
+
 //@ func (*receiver).acceptable props C14 C04
 //@   requires r != nil
+//@   ensures result == acceptableDef(r, segSeq, segLen)
 //@   ensures implies(r.rcvAcc == r.rcvNxt, result == (segLen == 0 && segSeq == r.rcvNxt))
 //@   ensures implies(r.rcvAcc != r.rcvNxt && segLen == 0, result == (segSeq - r.rcvNxt < r.rcvAcc - r.rcvNxt))
 //@   ensures implies(r.rcvAcc != r.rcvNxt && segLen > 0 && uint64(r.rcvAcc - r.rcvNxt) + uint64(segLen) <= 0x80000000, result == (segSeq - r.rcvNxt < r.rcvAcc - r.rcvNxt || r.rcvNxt - segSeq < seqnum.Value(segLen)))
@@ -250,6 +256,7 @@ package tcp
 //@   ensures ghost(sentNonFin) == old(ghost(sentNonFin)) + ite(flags & flagFin == 0, 1, 0)
 //@   ensures ghost(sentFin) == old(ghost(sentFin)) + ite(flags & flagFin != 0, 1, 0)
 //@   ensures s.maxSentAck == s.ep.rcv.rcvNxt
+//@   ensures ghost(tcpSegs) == old(ghost(tcpSegs)) + 1 && ghost(lastTCPFlags) == int(flags) && ghost(lastTCPSeq) == int(uint32(seq)) && ghost(lastTCPAck) == int(uint32(s.ep.rcv.rcvNxt))
 //@   modifies modset(NETSEND)
 //@   modifies s.lastSendTime, s.rttMeasureTime, s.maxSentAck, s.ep.rcv.rcvAcc
 
@@ -374,9 +381,10 @@ package tcp
 // readyToRead(s) appends s at the tail of the receive list, charges its size to the receive
 // buffer and counts its bytes as delivered; readyToRead(nil) only marks the stream closed.
 //@ func (*endpoint).readyToRead props C01 C04
-//@   requires e != nil && e.waiterQueue != nil && implies(s != nil, s != e.rcvList.tail)
+//@   requires e != nil && e.waiterQueue != nil
 //@   ghost_set delivered = old(ghost(delivered)) + ite(s != nil, old(s.data.size), 0)
-//@   ensures implies(s != nil, e.rcvList.tail == s && s.segmentEntry.prev == old(e.rcvList.tail) && s.segmentEntry.next == nil && e.rcvBufUsed == old(e.rcvBufUsed) + s.data.size && e.rcvClosed == old(e.rcvClosed))
+//@   ensures implies(s != nil, e.rcvList.tail == s && s.segmentEntry.prev == old(e.rcvList.tail) && e.rcvBufUsed == old(e.rcvBufUsed) + s.data.size && e.rcvClosed == old(e.rcvClosed))
+//@   ensures implies(s != nil && s != old(e.rcvList.tail), s.segmentEntry.next == nil)
 //@   ensures implies(s != nil && old(e.rcvList.tail) != nil, old(e.rcvList.tail).segmentEntry.next == s && e.rcvList.head == old(e.rcvList.head))
 //@   ensures implies(s != nil && old(e.rcvList.tail) == nil, e.rcvList.head == s)
 //@   ensures implies(s == nil, e.rcvClosed && e.rcvList.tail == old(e.rcvList.tail) && e.rcvBufUsed == old(e.rcvBufUsed))
@@ -385,6 +393,8 @@ package tcp
 //@ func (*segment).decRef props C01 C04 C03 C07
 //@   requires s != nil
 //@   modifies s.refCnt, modset(NETQUIET)
+
+//@ define segsNonNil(h) = forall(k, 0, len(h), h[k] != nil)
 
 // rcvOK: an initialised receiver.
 //@ define rcvOK(r) = r != nil && r.ep != nil && r.ep.waiterQueue != nil && r.ep.snd != nil && r.ep.snd.ep == r.ep && r.ep.rcv == r && 0 <= r.ep.sack.NumBlocks && r.ep.sack.NumBlocks <= MaxSACKBlocks
@@ -396,18 +406,51 @@ package tcp
 // further for FIN). An empty segment is consumed exactly when it sits at rcvNxt. A segment that
 // is not consumed changes neither rcvNxt nor what has been delivered.
 //@ func (*receiver).consumeSegment props C01 C04
-//@   requires rcvOK(r) && s != nil && s != r.ep.rcvList.tail
-//@   requires segLen == seqnum.Size(s.data.size) && segSeq == s.sequenceNumber && 0 <= s.data.size && s.data.size <= 0x7fffffff
-//@   requires forall(k, 0, len(r.pendingRcvdSegments), r.pendingRcvdSegments[k] != nil)
+//@   requires rcvOK(r) && sndOK(r.ep.snd) && s != nil
+//@   requires segLen == seqnum.Size(s.data.size) && segSeq == s.sequenceNumber
+//@   requires segsNonNil(r.pendingRcvdSegments)
 //@   ensures implies(segLen > 0, result == (old(r.rcvNxt) - segSeq < seqnum.Value(segLen)))
 //@   ensures implies(segLen == 0, result == (segSeq == old(r.rcvNxt)))
 //@   ensures implies(!result, r.rcvNxt == old(r.rcvNxt) && ghost(delivered) == old(ghost(delivered)) && r.closed == old(r.closed))
-//@   ensures implies(result && segLen > 0 && old(s.data.size == vsum(s.data.views)), seqnum.Value(ghost(delivered) - old(ghost(delivered))) == segSeq + seqnum.Value(segLen) - old(r.rcvNxt) && ghost(delivered) - old(ghost(delivered)) >= 1 && ghost(delivered) - old(ghost(delivered)) <= int(segLen))
+//@   ensures implies(result && segLen > 0 && old(s.data.size == vsum(s.data.views) && 0 <= s.data.size && s.data.size <= 0x7fffffff), seqnum.Value(ghost(delivered) - old(ghost(delivered))) == segSeq + seqnum.Value(segLen) - old(r.rcvNxt) && ghost(delivered) - old(ghost(delivered)) >= 1 && ghost(delivered) - old(ghost(delivered)) <= int(segLen))
 //@   ensures implies(result && segLen == 0, ghost(delivered) == old(ghost(delivered)))
 //@   ensures implies(result, r.rcvNxt == segSeq + seqnum.Value(segLen) + ite(old(s.flags) & flagFin != 0, seqnum.Value(1), seqnum.Value(0)))
 //@   ensures implies(result, r.closed == (old(r.closed) || old(s.flags) & flagFin != 0))
+//@   ensures rcvOK(r) && sndOK(r.ep.snd) && segsNonNil(r.pendingRcvdSegments)
+//@   ensures implies(!(result && old(s.flags) & flagFin != 0), len(r.pendingRcvdSegments) == old(len(r.pendingRcvdSegments)))
+//@   ensures implies(result && old(s.flags) & flagFin != 0, len(r.pendingRcvdSegments) == ite(old(len(r.pendingRcvdSegments)) != 0 && old(r.pendingRcvdSegments[0]) == s, 1, 0))
 //@   loop 1 invariant first <= i && i <= len(r.pendingRcvdSegments)
 //@   modifies modset(NETSEND), ghost(delivered)
 //@   modifies r.rcvNxt, r.closed, r.pendingRcvdSegments, r.rcvAcc, r.ep.sack.Blocks, r.ep.sack.NumBlocks, r.ep.rcvBufUsed, r.ep.rcvList.head, r.ep.rcvList.tail, r.ep.rcvClosed
 //@   modifies r.ep.snd.lastSendTime, r.ep.snd.rttMeasureTime, r.ep.snd.maxSentAck
 //@   modifies s.sequenceNumber, s.data.views, s.data.size, elems(s.data.views), s.segmentEntry.next, s.segmentEntry.prev, r.ep.rcvList.tail.segmentEntry.next, structfamily(segment, "refCnt")
+
+// ASSUMED contracts of container/heap on the out-of-order segment heap (library not verified):
+// Push adds one element, Pop removes one; every element stays one of the segments pushed.
+//@ func container/heap.Push[*segmentHeap] props C01 C04
+//@   requires hastype(x, *segment) && as(x, *segment) != nil && segsNonNil(*as(h, *segmentHeap))
+//@   ensures len(*as(h, *segmentHeap)) == old(len(*as(h, *segmentHeap))) + 1
+//@   ensures segsNonNil(*as(h, *segmentHeap))
+//@   modifies *as(h, *segmentHeap), elemscap(*as(h, *segmentHeap))
+
+//@ func container/heap.Pop[*segmentHeap] props C01 C04
+//@   requires len(*as(h, *segmentHeap)) > 0 && segsNonNil(*as(h, *segmentHeap))
+//@   ensures len(*as(h, *segmentHeap)) == old(len(*as(h, *segmentHeap))) - 1
+//@   ensures hastype(result, *segment)
+//@   ensures segsNonNil(*as(h, *segmentHeap))
+//@   modifies *as(h, *segmentHeap), elems(*as(h, *segmentHeap))
+
+// handleRcvdSegment: nothing is processed after the receive side closed; a segment outside the
+// acceptable range (RFC 793 p.26, see acceptable) is answered by exactly one ACK and delivers
+// nothing and does not move rcvNxt ("data wholly outside the window is never delivered").
+//@ func (*receiver).handleRcvdSegment props C01 C04
+//@   requires rcvOK(r) && sndOK(r.ep.snd) && s != nil
+//@   requires segsNonNil(r.pendingRcvdSegments)
+//@   ensures implies(old(r.closed), r.rcvNxt == old(r.rcvNxt) && ghost(delivered) == old(ghost(delivered)) && ghost(tcpSegs) == old(ghost(tcpSegs)))
+//@   ensures implies(!old(r.closed) && !old(acceptableDef(r, s.sequenceNumber, seqnum.Size(s.data.size))), r.rcvNxt == old(r.rcvNxt))
+//@   ensures implies(!old(r.closed) && !old(acceptableDef(r, s.sequenceNumber, seqnum.Size(s.data.size))), ghost(delivered) == old(ghost(delivered)))
+//@   ensures implies(!old(r.closed) && !old(acceptableDef(r, s.sequenceNumber, seqnum.Size(s.data.size))), ghost(tcpSegs) == old(ghost(tcpSegs)) + 1 && ghost(lastTCPFlags) == int(flagAck))
+//@   loop 1 invariant segsNonNil(r.pendingRcvdSegments)
+//@   loop 1 invariant rcvOK(r)
+//@   loop 1 invariant sndOK(r.ep.snd)
+//@   modifies everything(), modset(NETGHOSTS), ghost(delivered)
